@@ -131,7 +131,17 @@ func (c *Client) ProcessCommand(ctx context.Context, cmd *RequestCommand) (*Resp
 func (c *Client) channelOK() bool {
 	c.mu.RLock()
 	defer c.mu.RUnlock()
-	return c.channel != nil && c.channel.Established()
+	if c.channel == nil || !c.channel.Established() {
+		return false
+	}
+	select {
+	case <-c.channel.RcvDone():
+		// The receiver is gone (for instance, after a receive error),
+		// so nothing would be read from this channel anymore.
+		return false
+	default:
+		return true
+	}
 }
 
 func (c *Client) getOrBuildChannel(ctx context.Context) (*ClientChannel, error) {
